@@ -342,7 +342,13 @@ func scenTable(x *Exec, prop string) {
 	lines := make([][]string, nclients)
 	for i := 0; i < p.NLines; i++ {
 		c := g.Pick(nclients)
-		lines[c] = append(lines[c], genLine(g, i, prop))
+		l := genLine(g, i, prop)
+		// a rewriter list that empties the name yields a line no carbon consumer can parse; such
+		// degenerate names are outside the properties' scope
+		if v := RefDispatch(&p.Table, []byte(l), func(int, []byte) int { return 0 }); !v.Invalid && !v.Blacklisted && len(v.Name) == 0 {
+			l = "onlyname"
+		}
+		lines[c] = append(lines[c], l)
 	}
 	for _, cl := range lines {
 		h := cl
